@@ -1,6 +1,6 @@
 """C19 - stopping conditions stop the run when, and only when, they are met.
 
-proof:          coq/C19/Properties.v (18 theorems about the real instance of coq/C19/Model.v: latch,
+proof:          coq/C19/Properties.v (24 theorems about the real instance of coq/C19/Model.v: latch, registration API,
                 or/and combination, first-hit stop, crossing time within the step / on the chord, TTP
                 after reset; the physics is an arbitrary function `next`).
 correspondence: the REAL stopping machinery (PrecipitationStoppingCondition.testCondition,
@@ -76,9 +76,35 @@ def mk_cond(c):
     from kawin.precipitation import StoppingConditions as SC
     ineq = SC.Inequality.GREATER_THAN if c['ineq'] == 'GT' else SC.Inequality.LESSER_THAN
     cls = getattr(SC, CLSNAME[c['q']])
+    style = c.get('ctor', 'kw')
+    if style == 'omit' and c['sel'] is None:
+        return cls(ineq, c['value'])                 # phase / element argument omitted: default None
+    if style == 'pos':
+        return cls(ineq, c['value'], c['sel'])       # third positional parameter
     if c['q'] == 'Composition':
         return cls(ineq, c['value'], element=c['sel'])
     return cls(ineq, c['value'], phase=c['sel'])
+
+
+KNOWN_MODES = ('or', 'and', 'default')
+
+
+def register_cond(model, obj, c):
+    """model.addStoppingCondition as a user writes it: mode omitted ('default'), positional or keyword"""
+    if c['mode'] == 'default':
+        if c.get('call') == 'kw':
+            model.addStoppingCondition(condition=obj)
+        else:
+            model.addStoppingCondition(obj)
+    elif c.get('call') == 'kw':
+        model.addStoppingCondition(obj, mode=c['mode'])
+    else:
+        model.addStoppingCondition(obj, c['mode'])
+
+
+def is_or(c):
+    """the API contract: addStoppingCondition(condition, mode='or') - no mode means or-combined"""
+    return c['mode'] in ('or', 'default')
 
 
 def latch_of(obj):
@@ -290,7 +316,7 @@ def run_scenario(sc):
     model = mk_model(sc)
     objs = [mk_cond(c) for c in sc['conds']]
     for c, o in zip(sc['conds'], objs):
-        model.addStoppingCondition(o, c['mode'])
+        register_cond(model, o, c)
     init = [latch_of(o) for o in objs]
     err = quiet_solve(model, sc['simTime'], solver)
     segs.append({'ref': ref_rows, 'n0': 1, 'simTime': sc['simTime'], 'init': init, 'fresh': True,
@@ -322,6 +348,32 @@ def run_scenario(sc):
             err = quiet_solve(model, then['simTime'], solver)
             segs.append({'ref': rows_of(ref2), 'n0': 1, 'simTime': then['simTime'], 'init': after_reset, 'fresh': True,
                          'after_reset': after_reset, 'res': segment_result(model, objs, 1, err)})
+        elif then['op'] == 'clear':
+            # clearStoppingConditions() and a new set of conditions; after reset() or continuing the run
+            if then.get('reset'):
+                model.reset()
+                n0 = 1
+                twin = mk_model(sc)
+                twin.reset()
+            else:
+                n0 = model.pData.n + 1
+                twin = copy.deepcopy(model)
+            twin.clearStoppingConditions()
+            twin.log = []
+            old_before = [latch_of(o) for o in objs]
+            model.clearStoppingConditions()
+            objs2 = [mk_cond(c) for c in then['conds']]
+            for c, o in zip(then['conds'], objs2):
+                register_cond(model, o, c)
+            init = [latch_of(o) for o in objs2]
+            e = quiet_solve(twin, then['simTime'], solver)
+            if e:
+                segs.append({'ref_err': e})
+                return segs
+            err = quiet_solve(model, then['simTime'], solver)
+            segs.append({'ref': rows_of(twin), 'n0': n0, 'simTime': then['simTime'], 'init': init, 'fresh': True,
+                         'conds': then['conds'], 'old_latches': [latch_of(o) for o in objs],
+                         'old_before': old_before, 'res': segment_result(model, objs2, n0, err)})
     return segs
 
 
@@ -360,7 +412,7 @@ def run_ttp(sc):
     model = mk_model(sc)
     objs = [mk_cond(c) for c in sc['conds']]
     if sc.get('pre_or') is not None:
-        model.addStoppingCondition(mk_cond(sc['pre_or']), 'or')
+        register_cond(model, mk_cond(sc['pre_or']), sc['pre_or'])
     rec = {'calls': []}
     try:
         with contextlib.redirect_stdout(io.StringIO()), warnings.catch_warnings():
@@ -447,9 +499,14 @@ def latch_lit(l):
     return '(L_ %s %s)' % (boollit(l[0]), qx(l[1]))
 
 
+def mode_lit(c):
+    """the mode ARGUMENT as written by the caller; the model decides what it means"""
+    return 'None' if c['mode'] == 'default' else '(Some %s)' % strlit(c['mode'])
+
+
 def entries_lit(conds, latches):
-    return '[' + '; '.join('(E_ %s %s %s)' % (cond_lit(c), boollit(c['mode'] == 'or'), latch_lit(l))
-                           for c, l in zip(conds, latches)) + ']'
+    return '(registered [' + '; '.join('Reg_ %s %s %s' % (cond_lit(c), latch_lit(l), mode_lit(c))
+                                        for c, l in zip(conds, latches)) + '])'
 
 
 def rows_finite(rows):
@@ -497,13 +554,18 @@ def expected_time(c, ref, n, phases, elements):
 def oracle_segment(sc, seg):
     """returns list of (clause, cls, message)"""
     phases, elements = sc['phases'], sc['elements']
-    conds = sc['conds']
+    conds = seg.get('conds', sc['conds'])
     res = seg['res']
     ref = seg['ref']
     n0 = seg['n0']
     v = []
     if not all(sel_ok(c, phases, elements) for c in conds):
         return v                                 # a name that does not exist: nothing is promised
+    if not all(c['mode'] in KNOWN_MODES for c in conds):
+        return v                                 # a mode string other than 'or' / 'and': nothing is promised
+    if seg.get('old_latches') is not None and seg['old_latches'] != seg['old_before']:
+        v.append(('latched_stays', 'cleared condition touched', 'conditions removed by clearStoppingConditions() changed from %r to %r during the next run'
+                  % (seg['old_before'], seg['old_latches'])))
     if res['err']:
         return [('no_internal_error', res['err'].split(':')[0], 'run with stopping conditions raised ' + res['err'])]
     tf = ref[n0 - 1]['t'] + seg['simTime']
@@ -520,8 +582,8 @@ def oracle_segment(sc, seg):
             continue
         k = next((n for n in range(n0, len(ref)) if pred(c, value_of(c, ref[n], phases, elements))), None)
         first.append(k)
-    ors = [i for i, c in enumerate(conds) if c['mode'] == 'or']
-    ands = [i for i, c in enumerate(conds) if c['mode'] != 'or']
+    ors = [i for i, c in enumerate(conds) if is_or(c)]
+    ands = [i for i, c in enumerate(conds) if not is_or(c)]
 
     def combined(n):
         met = [f is not None and f <= n for f in first]
@@ -727,7 +789,15 @@ def gen_cond(rng, script, phases, elements, badname=False, dyadic=False):
         value = (max(xs) * 2 + 1) if ineq == 'GT' else (min(xs) - abs(min(xs)) - 1)
     else:
         value = (xs[0] - abs(xs[0]) * 0.5 - 0.125) if ineq == 'GT' else (xs[0] + abs(xs[0]) * 0.5 + 0.125)
-    return {'q': q, 'ineq': ineq, 'value': float(value), 'sel': sel, 'mode': str(rng.choice(['or', 'and']))}
+    return dict({'q': q, 'ineq': ineq, 'value': float(value), 'sel': sel}, **gen_api(rng, sel))
+
+
+def gen_api(rng, sel):
+    """how the user writes the two API calls: mode 'or' / 'and' / omitted (rarely another string), positional
+    or keyword; phase / element positional, keyword or (when None) omitted"""
+    mode = str(rng.choice(['or', 'and', 'default', 'all', 'OR'], p=[0.33, 0.33, 0.3, 0.02, 0.02]))
+    ctor = str(rng.choice(['kw', 'pos', 'omit'])) if sel is None else str(rng.choice(['kw', 'pos']))
+    return {'mode': mode, 'call': str(rng.choice(['pos', 'kw'])), 'ctor': ctor}
 
 
 def gen_scripted(rng, idx):
@@ -739,12 +809,11 @@ def gen_scripted(rng, idx):
     bad = rng.random() < 0.04
     conds = [gen_cond(rng, script, phases, elements, badname=(bad and i == 0), dyadic=(kind == 'dyadic')) for i in range(nc)]
     mode_bias = rng.random()
-    if mode_bias < 0.2:
+    if mode_bias < 0.45:
+        # all conditions registered the same way: all 'or', all 'and', all with the mode omitted
+        m = 'or' if mode_bias < 0.15 else 'and' if mode_bias < 0.3 else 'default'
         for c in conds:
-            c['mode'] = 'or'
-    elif mode_bias < 0.4:
-        for c in conds:
-            c['mode'] = 'and'
+            c['mode'] = m
     n = len(script['rows'])
     total = sum(script['dt'][:n - 1])
     simTime = float(total * rng.choice([0.3, 0.6, 1.0, 1.0, 1.4])) if kind != 'dyadic' else float(sum(script['dt'][:int(rng.integers(1, n))]))
@@ -755,6 +824,13 @@ def gen_scripted(rng, idx):
         sc['then'] = {'op': 'continue', 'simTime': float(simTime * rng.choice([0.5, 1.0, 2.0]))}
     elif r < 0.4:
         sc['then'] = {'op': 'reset', 'simTime': float(simTime * rng.choice([0.5, 1.0, 1.5]))}
+    elif r < 0.55:
+        # clearStoppingConditions() and a new set, mostly registered without a mode
+        conds2 = [gen_cond(rng, script, phases, elements, dyadic=(kind == 'dyadic')) for _ in range(int(rng.integers(1, 4)))]
+        if rng.random() < 0.6:
+            for c in conds2:
+                c['mode'] = 'default'
+        sc['then'] = {'op': 'clear', 'reset': bool(rng.random() < 0.6), 'simTime': float(simTime * rng.choice([0.5, 1.0, 1.5])), 'conds': conds2}
     return sc
 
 
@@ -812,7 +888,10 @@ def stub_conds(rng, ref, phases, nconds):
         if how == 'initial':
             ineq = str(rng.choice(['GT', 'LT']))
             value = xs[0] * 0.5 - 1e-30 if ineq == 'GT' else xs[0] * 1.5 + 1e-30
-        conds.append({'q': q, 'ineq': ineq, 'value': float(value), 'sel': sel, 'mode': str(rng.choice(['or', 'and']))})
+        conds.append(dict({'q': q, 'ineq': ineq, 'value': float(value), 'sel': sel}, **gen_api(rng, sel)))
+    if len(conds) > 1 and rng.random() < 0.35:
+        for c in conds:
+            c['mode'] = 'default'
     return conds
 
 
@@ -854,7 +933,7 @@ def model_terms_run(sc, segs):
         t0 = seg['ref'][seg['n0'] - 1]['t']
         tf = t0 + seg['simTime']
         terms.append('run_case %s %s %s %s %s' % (names_lit(sc['phases'], sc['elements']), rows_lit(seg['ref'][:keep]), natlit(seg['n0']),
-                                                  qlit(frac(tf) - frac(t0)), entries_lit(sc['conds'], seg['init'])))
+                                                  qlit(frac(tf) - frac(t0)), entries_lit(seg.get('conds', sc['conds']), seg['init'])))
         idx.append(si)
     return terms, idx
 
@@ -893,7 +972,7 @@ def nontrivial_run(sc, segs):
     for seg in segs:
         if 'res' not in seg or seg['res']['err']:
             continue
-        for c, l0, l1 in zip(sc['conds'], seg['init'], seg['res']['latches']):
+        for c, l0, l1 in zip(seg.get('conds', sc['conds']), seg['init'], seg['res']['latches']):
             if not l0[0] and l1[0] and l1[1] > seg['ref'][seg['n0'] - 1]['t']:
                 return True
     return False
@@ -931,6 +1010,7 @@ def explore_runs(ctx, scenarios, label):
             ctx.hist('quantity', c['q'])
             ctx.hist('inequality', c['ineq'])
             ctx.hist('mode', c['mode'])
+            ctx.hist('api', 'mode %s / %s, selection %s' % ('omitted' if c['mode'] == 'default' else 'given', c.get('call', 'pos'), c.get('ctor', 'kw')))
         if 'res' in segs[0] and (label != 'scripted' or nontrivial_run(sc, segs)):
             r0 = segs[0]['res']
             ctx.sample({'kind': sc['base'] + ' run', 'phases': sc['phases'], 'conditions': sc['conds'], 'simTime': sc['simTime'], 'then': sc.get('then'),
@@ -1014,7 +1094,8 @@ def explore_ttp(ctx, scenarios, label):
             if not all(np.isfinite(l[1]) for l in call['init']):
                 continue
             cs = '[' + '; '.join('(%s, %s)' % (cond_lit(c), latch_lit(l)) for c, l in zip(sc['conds'], call['init'])) + ']'
-            terms.append('ttp_case %s %s %s %s %s' % (names_lit(sc['phases'], sc['elements']), tb, qx(sc['maxTime']), cs, qxlist(call['temps'])))
+            pre = entries_lit([sc['pre_or']], [(False, -1.0)]) if sc.get('pre_or') is not None else '[]'
+            terms.append('ttp_case %s %s %s %s %s %s' % (names_lit(sc['phases'], sc['elements']), tb, qx(sc['maxTime']), pre, cs, qxlist(call['temps'])))
             where.append((si, ci))
     t_impl = time.time()
     mods = ctx.coq_eval('ttp_' + label, HEADER, terms, shard=(1 if label == 'stub' else None)) if terms else []
@@ -1159,6 +1240,12 @@ def run(ctx):
                 sc['then'] = {'op': 'continue', 'simTime': cfg['simTime'] * 0.25}
             if j == 1:
                 sc['then'] = {'op': 'reset', 'simTime': cfg['simTime'] * 0.5}
+            if j == 2:
+                # reset(), clearStoppingConditions(), then a new set registered without a mode
+                c2 = stub_conds(rng, ref, cfg['phases'], 2)
+                for c in c2:
+                    c['mode'] = 'default'
+                sc['then'] = {'op': 'clear', 'reset': True, 'simTime': cfg['simTime'], 'conds': c2}
             stub_sc.append(sc)
     d, h = explore_runs(ctx, stub_sc, 'stub')
     dis += d
